@@ -224,14 +224,34 @@ def _copy_worker(item):
     return res
 
 
+def writer_states(calls, split):
+    """abstract writer states (root written?, groups declared so far in this session) a program passes through"""
+    out = set()
+    nc = len(calls)
+    sessions = [list(range(nc))] if not split or nc < 2 else [list(range(split)), list(range(split, nc))]
+    for sess in sessions:
+        st = (False, frozenset())
+        out.add(repr((st[0], sorted(st[1]))))
+        for ci in sess:
+            groups = set(st[1])
+            for o in calls[ci]:
+                if o[0] in ('G', 'C', 'C*'):
+                    groups.add(o[1])
+            st = (True, frozenset(groups))
+            out.add(repr((st[0], sorted(st[1]))))
+    return out
+
+
 def _worker(item):
     first, depth, ai, seed = item
     shapes = W.call_shapes()
     assign = W.assignments()[ai]
-    res = {'counters': {'programs': 0, 'nontrivial': 0, 'multi_session': 0}, 'outcomes': {}, 'violations': [], 'samples': []}
+    res = {'counters': {'programs': 0, 'nontrivial': 0, 'multi_session': 0}, 'outcomes': {}, 'violations': [], 'samples': [], 'distinct': set()}
 
     def rec(seq):
         calls = [shapes[i] for i in seq]
+        for sp in [0] + list(range(1, len(seq))):
+            res['distinct'] |= writer_states(calls, sp)
         for split, version, dest in variants(len(seq)):
             oc, why = check_program(calls, assign, split, version, dest)
             res['counters']['programs'] += 1
@@ -271,14 +291,14 @@ def run(ctx):
     if not c.get('multi_session'):
         vac.append('no multi-session program')
     # writer-state machine: (root written, groups written) - tiny, reported for completeness
-    states = 1 + 4
+    states = len(m['distinct'])
     cov = {'states': states, 'transitions': c['programs'], 'traces_validated_against_impl': c['programs'],
            'evaluations': c['programs'], 'distinct_nontrivial': c['nontrivial'],
            'rule': 'distinct programs = (kind assignment, call sequence, session split, version, destination); non-trivial = '
                    'accepted by the writer and writing at least one channel',
            'alphabet': {'call_shapes': len(shapes), 'kind_assignments': nassign, 'data_kinds': W.KINDS,
                         'property_menus': W.N_MENUS, 'depth': depth},
-           'writer_state_note': 'abstract writer state = (root written?, subset of {g,h} written): 5 reachable states, fixpoint at depth 2',
+           'writer_state_note': 'states = distinct abstract writer states (root written?, groups declared in the session) passed through by the enumerated programs, measured',
            'outcomes': m['outcomes'], 'samples': m['samples'][:4], 'exhaustive': True, 'vacuity_failures': vac}
     return cov, m['violations']
 
